@@ -34,6 +34,20 @@ CHECKS = {
         "design_ref": "DESIGN.md section 4, C02",
         "level_note": E4_NOTE + " Not decided: the 1e-9 numeric bound for mixed-base prefixes and exactness tests on float exponents.",
     },
+    "C03": {
+        "engine": "E1+E4",
+        "technique": "abstract interpretation of every Quantity operator to a normal form of its physical value (units-of-measure typing + polynomial normalisation); AST shape rule on the Decimal helpers; mypy-typed lint; CFG dominance of the dimension gates",
+        "level_text": "For every operator arm the result's physical value and dimension component are compared with the operation applied to the operands' values, for all operands at once; result kind, left-unit, Decimal discipline and gate dominance are structural rules. All obligations are discharged except Quantity.__rtruediv__ (keeps the unit), a genuine defect pinned by the suite and recorded as a known finding - hence 'other'.",
+        "design_ref": "DESIGN.md section 4, C03",
+        "level_note": E4_NOTE + " Axioms: in_unit is value-preserving (C04); unit operators are the group operations (C02). Not decided: complex roots of negative magnitudes, float overflow.",
+    },
+    "C06": {
+        "engine": "E1+E4",
+        "technique": "abstract interpretation: physical-value normal forms of + - * / ** and of the magnitudes compared in __eq__/__lt__ (under their path conditions), relative to the in_unit axiom; layering rule on prefix arithmetic",
+        "level_text": "If every operator's result has the physical value of the operation applied to the operands' physical values, re-expressing an operand cannot change the result. Decided for all operands at once as identities of normal forms; the comparison operators are shown to compare the operands' own physical values in one unit. number/quantity (__rtruediv__) is a known finding, hence 'other'.",
+        "design_ref": "DESIGN.md section 4, C06",
+        "level_note": E4_NOTE + " Proved relative to the in_unit axiom (C04). Not decided: rounding ties.",
+    },
     "C11": {
         "engine": "E1+E4+E5",
         "technique": "abstract interpretation of Prefix/Unit operators (prefix component, log-value identities), value-preservation normal forms for quantify/unprefixed, def-use rule on convert/_plan_conversion, declared-prefix table from E5",
